@@ -239,8 +239,11 @@ def rule_ensure_templates(ctx):
     for name, ref in REF_ENSURE.items():
         b = fx.fn(SELF + "::" + name)
         v = ev.function(b)
-        ctx.add("TPL", "ensure:" + name, commut(v) == commut(ref), ctx.site(b),
-                "the check evaluates to the reference term (condition, operands, error variant)" if commut(v) == commut(ref) else
+        from .. import leaves as _lv
+        cv, cr = _lv.canon_first(v), _lv.canon_first(ref)
+        same = (commut(v) == commut(ref)) or (cv is not None and cv == cr)
+        ctx.add("TPL", "ensure:" + name, same, ctx.site(b),
+                "the check evaluates to the reference term (condition, operands, error variant)" if same else
                 "extracted term differs from the reference: %s" % sym.pretty(v, width=200)[:900], construct=v)
         if name == "ensure_placeholder_name_uniqueness":
             names = [t for t in ev.last_env.get("names", [])]
@@ -250,13 +253,18 @@ def rule_ensure_templates(ctx):
     # roles accepted by the specification validator vs. roles the consumer treats as unreachable (contradiction rule)
     b = fx.fn(SELF + "::ensure_specification_roles_are_supported")
     v = ev.function(b)
+    from .. import leaves as _lv
+    cf = _lv.canon_first(v)
     accepted = None
-    for x in sym.subterms(v):
-        if isinstance(x, tuple) and x[:1] == ("matches",) and x[1] == ("fieldof", EACH_F, "role"):
-            accepted = set(x[2])
-    shape_ok = accepted is not None and v[0] == "returns" and v[1][0][0] == ((("op", "Not", ("matches", ("fieldof", EACH_F, "role"), tuple(sorted(accepted)))), True),) \
-        and v[1][0][1] == ERR("SpecificationContainsUnsupportedRoles", EACH_F) and v[1][1] == (("fallthrough",), OK_)
-    ctx.add("TPL", "ensure:ensure_specification_roles_are_supported", shape_ok, ctx.site(b), "formulas whose role is not in %s are refused" % sorted(accepted or []), construct=v)
+    shape_ok = False
+    if cf is not None and len(cf[1]) == 1:
+        AT = ("at", cf[1][0])
+        role = ("fieldof", AT, "role")
+        neg = [t for t in cf[2] if t[0] == "not" and len(t[1]) == 1 and t[1][0][0] == "is" and t[1][0][1] == role]
+        accepted = {t[1][0][2] for t in neg}
+        shape_ok = bool(accepted) and len(neg) == len(cf[2]) and cf[1][0] == ("param", "formulas") and \
+            cf[3] == _lv.norm(_lv.replace(ERR("SpecificationContainsUnsupportedRoles", EACH_F), {EACH_F: AT})) and cf[4] == _lv.norm(OK_)
+    ctx.add("TPL", "ensure:ensure_specification_roles_are_supported", shape_ok, ctx.site(b), "the first formula whose role is not in %s is refused, nothing else is" % sorted(accepted or []), construct=v)
     vd = fx.fn("decompose", impl_self="verifying::task::external_equivalence::ValidatedExternalEquivalenceTask")
     unreachable_roles = set()
     handled = set()
